@@ -293,7 +293,8 @@ class InversionImagingWTilde(AbstractInversionImaging):
         """
 
         if self.preloads.curvature_matrix_mapper_diag is not None:
-            return self.preloads.curvature_matrix_mapper_diag
+            # Need to copy because the multi-mapper and linear-func paths write the off-diagonal blocks into this matrix.
+            return copy.copy(self.preloads.curvature_matrix_mapper_diag)
 
         if not self.has(cls=AbstractMapper):
             return None
